@@ -498,6 +498,8 @@ class C01Graph(Base):
             if f'{p}/{n}' in led.manual:
                 continue
             self.n['submit_checks'] += 1
+            if self.case.get('start_point') and p < self.case['start_point']:
+                self.n['submitted_before_start_point'] += 1
             if p not in wfgen.task_points(gt, n) or not (
                     gt['initial'] <= p <= gt['final']):
                 self.v('submitted-off-sequence',
